@@ -15,7 +15,8 @@ RULE = ('random histories of 1-4 rounds "add k features; sort; query*": 1-200 fe
         'and earlier queries are repeated on purpose; reads with M/N/D/I/S CIGARs are annotated with both methods of '
         'findFeaturesAtPysamAlign, FeatureAnnotatedMolecule.annotate (0/1) and SingleEndTranscriptFragment.annotate. '
         'A query is non-trivial when the oracle set is non-empty or a feature ends/starts within 1 of the query; '
-        'distinct = distinct (history id, round, query).')
+        'distinct = distinct (history id, round, query).'
+        ' Plus coordinate universes just below and beyond 2^31.')
 ASSUMPTIONS = ['closed feature intervals [start,end]; a range query [a,b] with a<=b overlaps when max(a,start)<=min(b,end)',
                'a read overlaps a feature when the feature contains at least one aligned reference base (M/=/X)',
                'queries are issued after sort() as in the quantifier (add*/sort/query*); feature coordinates are >= 0',
